@@ -44,6 +44,28 @@ var Faults = []Fault{
 		SignQe(q, DeriveKey("fault/foreign-pck"))
 		w.Raw = q.Encode()
 	}, MinLevel: LvlBase},
+	{Name: "chain-replaced-by-foreign-twin", Post: func(w *World) {
+		// a look-alike chain: intermediate and leaf carry the genuine names AND serial numbers but foreign keys,
+		// and the leaf claims the highest SVNs and another FMSPC; the genuine root ends the chain
+		fi := MakeCert(CertSpec{CN: w.PKI.Int.X.Subject.CommonName, KeyLabel: "fault/twin-int", Serial: w.PKI.Int.X.SerialNumber.Bytes(), NotBefore: Wide.NotBefore, NotAfter: Wide.NotAfter, CA: true, CRLDP: w.PKI.Spec.RootCRLDP},
+			MakeCert(CertSpec{CN: CNRoot, KeyLabel: "fault/twin-root", Serial: w.PKI.Root.X.SerialNumber.Bytes(), NotBefore: Wide.NotBefore, NotAfter: Wide.NotAfter, CA: true, CRLDP: w.PKI.Spec.RootCRLDP}, nil))
+		sgx := w.Sgx
+		for i := range sgx.Comp {
+			sgx.Comp[i] = 255
+		}
+		sgx.PceSvn = 65535
+		sgx.Fmspc[0] ^= 0x5a
+		ls := w.LeafSpec
+		ls.KeyLabel, ls.Serial, ls.SgxDER = "fault/twin-leaf", w.Leaf.X.SerialNumber.Bytes(), SgxTree(&sgx).Encode()
+		ls.CRLDP = w.Leaf.X.CRLDistributionPoints
+		tl := MakeLeaf(fi, ls)
+		q := w.Q.Clone()
+		q.Chain = ChainPEM(tl, fi, w.PKI.Root)
+		q.FixSizes()
+		SignQe(q, tl.Key)
+		w.Raw = q.Encode()
+		w.Sgx = sgx // the SGX values of the certificate the quote now carries
+	}, MinLevel: LvlBase},
 	{Name: "leaf-expired", Pre: func(w *World) {
 		w.LeafSpec.W = Window{Wide.NotBefore, w.Times.PckCertChain.Add(-time.Hour)}
 	}, MinLevel: LvlBase},
